@@ -350,3 +350,14 @@ def run(ck, prog):
     ck.floor("E1-gate", 4)
     ck.floor("E2-provenance", 1)
     ck.floor("E2-order", 1)
+
+
+_run_pre_builders = run
+
+
+def run(ck, prog):
+    _run_pre_builders(ck, prog)
+    # every setting of the quantifier is reachable through the public builder chain: setters must not clobber other fields
+    from sa.builders import check_builders
+    check_builders(ck, prog, r"^neighbors::knn_(classifier|regressor)::KNN(Classifier|Regressor)Parameters$")
+    ck.floor("E2-builder", 8)
